@@ -18,12 +18,13 @@ MOD = "mc.props.c15"
 
 NS = 'xmlns="http://www.w3.org/2000/svg" xmlns:xlink="http://www.w3.org/1999/xlink"'
 ROOTS = {
-    "shapes": f'<svg {NS} viewBox="0 0 100 100" width="100" height="100"><rect x="10" y="10" width="30" height="20" rx="4" fill="red" data-foo="bar"/><path d="m50 10 h20 v15 s-5 5 -10 0 z" fill-rule="evenodd"/><circle cx="30" cy="70" r="12.3456" fill="blue" fill-opacity="0.5"/></svg>',
+    "shapes": f'<svg {NS} viewBox="0 0 100 100" width="100" height="100"><rect x="10" y="10" width="30" height="20" rx="4" fill="red" data-foo="bar"/><path d="m50 10 h20 v15 s-5 5 -10 0 z M50,10 L55,12 L52,14 Z" fill-rule="evenodd" fill-opacity="0.5"/></svg>',
     "styleuse": f'<svg {NS} viewBox="0 0 100 100" width="100" height="100" style="fill:green"><defs><rect id="t" width="10" height="10" style="opacity:0.5"/></defs><use xlink:href="#t" x="5" y="5"/><use xlink:href="#t" transform="translate(40 40) scale(2)"/><ellipse cx="70" cy="20" rx="10" ry="5" style="fill:red;stroke:none"/><title>x</title></svg>',
     "groupstroke": f'<svg {NS} viewBox="0 0 100 100" width="100" height="100"><g opacity="0.5"><rect x="10" y="10" width="40" height="40" fill="red"/><circle cx="50" cy="50" r="20" fill="blue" stroke="black" stroke-width="3"/></g><line x1="0" y1="90" x2="100" y2="90" stroke="green" stroke-width="2"/><rect width="0" height="5"/></svg>',
     "nestclip": f'<svg {NS} viewBox="0 0 100 100" width="100" height="100"><defs><clipPath id="c"><circle cx="50" cy="50" r="30"/></clipPath></defs><svg x="10" y="10" width="50" height="50" viewBox="0 0 100 100"><rect x="-20" y="20" width="140" height="30" fill="purple"/></svg><rect x="20" y="20" width="60" height="60" fill="orange" clip-path="url(#c)"/><?pi x?><symbol><rect width="3" height="3"/></symbol></svg>',
     "gradxf": f'<svg {NS} viewBox="0 0 100 100" width="100" height="100"><defs><linearGradient id="g"><stop offset="0" stop-color="red"/><stop offset="1" stop-color="blue"/></linearGradient></defs><rect x="10" y="10" width="50" height="30" fill="url(#g)" transform="translate(5 5) rotate(10)"/><path d="M10,60 L40,60 L40,90 Z M-50,-50 L-40,-50 L-40,-40 Z" fill="url(#g)"/></svg>',
     "styled": f'<svg {NS} viewBox="0 0 100 100" width="100" height="100"><g style="fill:red;stroke-width:3" id="g1"><rect x="5" y="5" width="30" height="20" style="stroke:blue;fill:green"/><g style="stroke:black"><circle cx="60" cy="30" r="12"/><path d="M10,60 h30 v20 z" style="stroke:none" fill="gold"/></g></g><rect x="60" y="60" width="20" height="20" fill="navy"/></svg>',
+    "vpclip": f'<svg {NS} viewBox="0 0 100 100"><defs><clipPath id="c"><path d="M10,10 H60 V60 H10 Z M25,25 H45 V45 H25 Z"/></clipPath><rect id="t" width="12" height="9" fill="teal"/></defs><svg x="5" y="5" viewBox="0 0 50 50"><rect x="-10" y="10" width="70" height="12" fill="purple"/></svg><g clip-path="url(#c)"><rect x="5" y="5" width="70" height="70" fill="orange"/><use xlink:href="#t" x="20" y="30"/></g></svg>',
     "pico": f'<svg {NS} viewBox="0 0 100 100"><defs/><path d="M10,10 L40,10 L40,40 Z" fill="red"/><g opacity="0.5"><path d="M20,20 L60,20 L60,60 Z"/><path d="M30,30 L70,30 L70,70 Z" fill="blue"/></g></svg>',
 }
 
@@ -46,6 +47,8 @@ INPLACE_OPS = [
     ("set_attributes", ((("width", "20"),),), {}),
     ("remove_attributes", (("height",),), {}),
     ("set_attributes", ((("fill", "teal"),),), {"xpath": "//svg:rect"}),
+    ("set_attributes", ((("viewBox", "0 0 60 80"),),), {}),
+    ("set_attributes", ((("clip-rule", "evenodd"),),), {"xpath": "//svg:clipPath/*"}),
     ("remove_attributes", (("fill",),), {"xpath": "//svg:rect | //svg:path"}),
     ("normalize_opacity", (), {}),
     ("resolve_nested_svgs", (), {}),
@@ -196,6 +199,7 @@ def transition(root, hist, a):
     if _exc_name(excA) != _exc_name(excB):
         bad("lazy!=eager", f"lazy object: {_exc_name(excA) or 'returned'} ({excA}); re-parsed object: {_exc_name(excB) or 'returned'} ({excB})")
     elif excA is None:
+        succ = canon(contA)  # before ser(): serialising flushes the cache and would change the state
         try:
             sA = ser(contA)
             sB = ser(contB)
@@ -203,11 +207,6 @@ def transition(root, hist, a):
             sA, sB = "A", f"serialisation raised {type(e).__name__}: {e}"
         if sA != sB:
             bad("lazy!=eager", "document after the operation differs from the one obtained when the object is serialised and re-parsed first", lazy=sA[:3000], eager=sB[:3000])
-        # successor state for the search: rebuild (ser() flushed contA)
-        objS = build(root, hist)
-        contS, _, excS = apply_action(objS, a)
-        if excS is None:
-            succ = canon(contS)
         if a.startswith("i:"):
             if retA is not objA:
                 bad("inplace-return", f"in-place operation returned {type(retA).__name__}, not the receiver")
@@ -230,19 +229,15 @@ def transition(root, hist, a):
                             bad("copy!=inplace-on-copy", "copying result differs from the in-place result on a re-parsed copy", copy=ser(retC)[:3000], inplace=ser(contD)[:3000])
                     else:
                         bad("copy!=inplace-on-copy", f"in-place form raised {_exc_name(excD)} where the copying form returned")
-        if a.startswith("q:") and excA is None:
-            objQ = build(root, hist)
-            before = ser_s
-            apply_action(objQ, a)
-            if ser(objQ) != before:
-                info["query_changes_serialisation"] = True
+        if a.startswith("q:") and excA is None and sA != ser_s:
+            info["query_changes_serialisation"] = True  # recorded, not judged
     return {"action": a, "succ": succ, "viol": viol, "info": info}
 
 
 def run(run):
-    roots = ["shapes", "groupstroke", "styled"] if run.tier == "quick" else list(ROOTS)
+    roots = ["shapes", "styled", "vpclip"] if run.tier == "quick" else list(ROOTS)
     depth = 3 if run.tier == "quick" else 6
-    budget = 140 if run.tier == "quick" else 1100
+    budget = 170 if run.tier == "quick" else 1100
     run.rule = (
         f"E1 explicit-state BFS over live SVG objects from {len(roots)} root documents; alphabet of {len(ACTIONS)} actions "
         "(21 operation variants in in-place and copy mode, append_to, 10 queries); state = canonical (tree bytes without flush, shape cache); "
